@@ -9,21 +9,27 @@ import (
 func init() {
 	register(&Prop{ID: "C11", Pkgs: []HarnessPkg{{Dir: "udp", Name: "udp"}}, InitPkgs: []string{"deadline", "packetio", "udp"},
 		Runs: func(tier string) []gosym.RunConfig {
-			k := int64(4)
-			if tier == "thorough" {
-				k = 5
-			}
 			var out []gosym.RunConfig
-			for _, f := range []int64{0, 1} {
-				for _, b := range []int64{1, 2} {
-					out = append(out, gosym.RunConfig{Name: fmt.Sprintf("dispatch-k%d-f%d-b%d", k, f, b), Entry: "VerifDispatch", Unwind: 8,
-						Params: map[string]int64{"k": k, "filter": f, "backlog": b}})
+			ks := []int64{4}
+			if tier == "thorough" {
+				ks = []int64{4, 5}
+			}
+			for _, k := range ks {
+				for _, f := range []int64{0, 1} {
+					for _, b := range []int64{1, 2} {
+						c := gosym.RunConfig{Name: fmt.Sprintf("dispatch-k%d-f%d-b%d", k, f, b), Entry: "VerifDispatch", Unwind: 8,
+							Params: map[string]int64{"k": k, "filter": f, "backlog": b}}
+						if k == 5 {
+							c.BudgetSec, c.Optional = 240, true
+						}
+						out = append(out, c)
+					}
 				}
 			}
 			return out
 		},
 		Bounds: func(tier string) []string {
-			return []string{"4 (thorough 5) events in any order: datagram from one of 3 remotes (two sharing an IP) of length 0..3 with symbolic bytes, Accept, Read, Close of an accepted connection; accept filter absent or 'first byte non-zero'; backlog 1 or 2; one run per (filter, backlog)"}
+			return []string{"4 events (thorough: also 5 within a 240 s budget per run) in any order: datagram from one of 3 remotes (two sharing an IP) of length 0..3 with symbolic bytes, Accept, Read, Close of an accepted connection; accept filter absent or 'first byte non-zero'; backlog 1 or 2; one run per (filter, backlog)"}
 		},
 		Assume: []string{
 			"the listener is assembled by the harness the way ListenConfig.Listen does after net.ListenUDP (struct literal, counters); Listen's own body, net.ListenUDP and the batch reader are outside the claim",
@@ -39,7 +45,7 @@ func init() {
 			}
 			after := gosym.RunConfig{Name: "after-listener-close", Entry: "VerifAfterListenerClose", Unwind: 8, AssertPrefix: "C12:"}
 			if tier == "thorough" {
-				return []gosym.RunConfig{after, mk(0, 0, 1, 1, 0, 0), mk(0, 1, 1, 1, 0, 0), mk(1, 0, 0, 0, 1, 0), mk(1, 0, 0, 1, 0, 0), mk(1, 0, 1, 1, 1, 1200), mk(1, 1, 0, 1, 0, 1200), mk(2, 0, 0, 0, 0, 1200)}
+				return []gosym.RunConfig{after, mk(0, 0, 1, 1, 0, 0), mk(0, 1, 1, 1, 0, 0), mk(1, 0, 0, 0, 1, 0), mk(1, 0, 0, 1, 0, 0), mk(1, 1, 0, 1, 0, 300), mk(2, 0, 0, 0, 0, 300)}
 			}
 			return []gosym.RunConfig{mk(0, 0, 1, 1, 0, 0), mk(0, 1, 0, 1, 0, 0), mk(1, 0, 0, 1, 0, 0), after}
 		},
